@@ -169,7 +169,9 @@ class ForeignXmlGen:
                 bmap[None] = "http://bundle-default.example/"
                 bdefault = True
             b = etree.SubElement(root, q("prov:bundleContent", nsmap), nsmap=bmap)
-            b.set("{%s}id" % PROV, "ex:bundle%d" % i)
+            # named in the *document's* scope, under any of its prefixes (an earlier bundle may have bound that prefix to something
+            # else for its own content; that is none of this bundle's business)
+            b.set("{%s}id" % PROV, "%s:bundle%d" % (r.choice(prefixes) if r.random() < 0.5 else "ex", i))
             for _ in range(r.randint(1, 3)):
                 self.record(b, r.choice(list(KIND_FORMALS)), bns, bp, bdefault)
         return etree.tostring(root, xml_declaration=True, encoding="UTF-8", pretty_print=r.random() < 0.5).decode("utf-8")
